@@ -7,7 +7,8 @@
    pipeline "transform both, multiply point-wise, inverse transform" yields N times the ring product, coefficient by
    coefficient, and a transform determines its coefficients up to the factor N; the radix-2 butterfly recursion
    computes all evaluations at the powers of a root; fold + twist + cyclic FFT of size N/2 (the scheme of the nayuki
-   and spqlios processors) yields the evaluations at the points w^(4k+1). *)
+   and spqlios processors) yields the evaluations at the points w^(4k+1); the other N/2 evaluations are their images under
+   any ring automorphism that fixes the integers and inverts w (complex conjugation): the stored half determines the transform. *)
 From Coq Require Import ZArith List Lia Ring_theory.
 From TV Require Import Base.Int32 Ring.NegaRing Proofs.Eval Proofs.FftInverse Proofs.FftAlg Proofs.FftInstance.
 Import ListNotations.
@@ -91,6 +92,30 @@ Theorem C10_half_complex_scheme : forall (R : Type) (rO rI : R) (radd rmul rsub 
   = tab R (2 ^ m) (fun k => ev R rO rI radd rmul ropp (2 ^ S m) (rpow R rI rmul w (4 * k + 1)) f).
 Proof. exact half_complex_transform. Qed.
 Print Assumptions C10_half_complex_scheme.
+
+Theorem C10_conjugate_evaluation : forall (R : Type) (rO rI : R) (radd rmul rsub : R -> R -> R) (ropp : R -> R)
+  (Rth : ring_theory rO rI radd rmul rsub ropp (@eq R)) (s : R -> R),
+  (forall x y, s (radd x y) = radd (s x) (s y)) -> (forall x y, s (rmul x y) = rmul (s x) (s y)) -> s rI = rI ->
+  forall (N : nat) (x : R) (f : vec), ev R rO rI radd rmul ropp N (s x) f = s (ev R rO rI radd rmul ropp N x f).
+Proof. exact conjugate_evaluation. Qed.
+Print Assumptions C10_conjugate_evaluation.
+
+(* the half the processors do not store: the evaluation at w^(4(M-k-1)+3) is the conjugate of the stored one at w^(4k+1) *)
+Theorem C10_other_half_by_conjugation : forall (R : Type) (rO rI : R) (radd rmul rsub : R -> R -> R) (ropp : R -> R)
+  (Rth : ring_theory rO rI radd rmul rsub ropp (@eq R)) (s : R -> R),
+  (forall x y, s (radd x y) = radd (s x) (s y)) -> (forall x y, s (rmul x y) = rmul (s x) (s y)) -> s rI = rI ->
+  forall (m : nat) (w : R), rpow R rI rmul w (2 ^ S m) = ropp rI -> s w = rpow R rI rmul w (2 * 2 ^ S m - 1) ->
+  forall (f : vec) (k : nat), (k < 2 ^ m)%nat ->
+  ev R rO rI radd rmul ropp (2 ^ S m) (rpow R rI rmul w (4 * (2 ^ m - k - 1) + 3)) f
+  = s (ev R rO rI radd rmul ropp (2 ^ S m) (rpow R rI rmul w (4 * k + 1)) f).
+Proof. exact other_half_by_conjugation. Qed.
+Print Assumptions C10_other_half_by_conjugation.
+
+(* ... met by the automorphism X -> X^-1 of Z[X]/(X^4+1) *)
+Example C10_conjugation_nonvacuous :
+  (forall x y, qconj (qadd x y) = qadd (qconj x) (qconj y)) /\ (forall x y, qconj (qmul x y) = qmul (qconj x) (qconj y)) /\
+  qconj q1 = q1 /\ qconj qX = rpow Q8 q1 qmul qX (2 * 2 ^ 2 - 1).
+Proof. repeat split; [exact qconj_add|exact qconj_mul]. Qed.
 
 (* the hypotheses are met: Z[X]/(X^4+1) with w = X is a commutative ring with w^4 = -1 (N = 4) *)
 Example C10_transform_nonvacuous :
